@@ -1,6 +1,7 @@
 import PoseVerif.Props.C01
 import PoseVerif.Proofs.Trunc
 import PoseVerif.Proofs.StreamRev
+import PoseVerif.Proofs.StreamWarm
 import PoseVerif.Proofs.Window3
 /-!
 # C07 — a truncated file is never mistaken for a valid pose (full reads from bytes and streams; windowed stream reads of a prefix)
@@ -50,6 +51,30 @@ theorem truncated_window_stream_slice (file : Bytes) (n : Nat) (w : Window) (p :
   obtain ⟨c', hb⟩ := readBytes_window file w p fps se hfull hv02 hfps hc hres hvw
   exact (truncated_window_stream file n w q _ c c' s hs hb hv02).1
 
+/-- **The windowed stream clause in full.** For a file that a full read accepts as v0.2, ANY prefix of it (`b.take n`), ANY window and ANY consistent state of the
+    header cache (`CacheOK`: what reads leave there — `cache_stays_ok` below): if the windowed stream read of the prefix returns, then the read of the intact bytes
+    with the same window and cache returns, and returns the same pose and the same cache entry. So the prefix read either raises or returns exactly what the intact
+    file would have returned for that window — and where the intact read itself raises (conflicting bounds, a start at or beyond the last frame) the prefix read raises. -/
+theorem truncated_window_stream_complete (b : Bytes) (n : Nat) (w : Window) (cache : Option CacheEntry) (hok : ∀ cc, cache = some cc → CacheOK cc)
+    (p : Pose) (hfull : readFull b = some p) (hv02 : versionClass p.header.version = .v02)
+    (q : Pose) (c : Option CacheEntry) (s : SR) (hs : readStream (b.take n) cache w = some ((q, c), s)) :
+    readBytes b cache w = some (q, c) := by
+  have := prefix_stream_complete (b.take n) (b.drop n) w cache hok p (by rw [List.take_append_drop]; exact hfull) hv02 q c s hs
+  rwa [List.take_append_drop] at this
+
+/-- the same agreement stated two-sidedly (any extension of the prefix, any cache state): whenever both reads return they return the same -/
+theorem truncated_window_stream_any_cache (b : Bytes) (n : Nat) (w : Window) (cache : Option CacheEntry) (hok : ∀ cc, cache = some cc → CacheOK cc)
+    (q q' : Pose) (c c' : Option CacheEntry) (s : SR)
+    (hs : readStream (b.take n) cache w = some ((q, c), s)) (hb : readBytes b cache w = some (q', c'))
+    (hv : versionClass q'.header.version = .v02) : q = q' ∧ c = c' := by
+  have hb' : readBytes (b.take n ++ b.drop n) cache w = some (q', c') := by rw [List.take_append_drop]; exact hb
+  exact prefix_stream_agrees_cache (b.take n) (b.drop n) w cache hok q q' c c' s hs hb' hv
+
+/-- the cache hypothesis is the invariant reads maintain: an empty cache satisfies it, and whatever entry a read leaves behind satisfies it again -/
+theorem cache_stays_ok (file : Bytes) (cache : Option CacheEntry) (hok : ∀ cc, cache = some cc → CacheOK cc) (w : Window) (p : Pose) (c : Option CacheEntry)
+    (h : readBytes file cache w = some (p, c)) : ∀ cc, c = some cc → CacheOK cc :=
+  read_leaves_ok file cache hok w p c h
+
 /-- a stream without window bounds is read into a `BufferReader` first: every proper prefix of a written file is rejected through that route as well -/
 theorem truncated_rejected_stream_full (p : Pose) (hf : p.body.Fits p.header) (b : Bytes) (h : p.write? = some b) (n : Nat) (hn : n < b.length) :
     (readSource (b.take n) none {}).map (·.1) = none := by
@@ -67,5 +92,10 @@ def win01 : Window := { startFrame := some 0, endFrame := some 1 }
 example : (twoFrames.write?.bind fun b => (readStream (b.take (b.length - 5)) none win01).map (·.1.1)) =
     (twoFrames.write?.bind fun b => (readBytes b none win01).map (·.1)) := by decide +kernel
 example : (twoFrames.write?.bind fun b => (readStream (b.take (b.length - 30)) none win01).map (·.1.1)) = none := by decide +kernel
+
+/-- warm cache: the same two prefixes, read with the cache already holding this file's header (left there by a full read) -/
+example : (twoFrames.write?.bind fun b => (readBytes b none {}).bind fun r => (readStream (b.take (b.length - 5)) r.2 win01).map (·.1.1)) =
+    (twoFrames.write?.bind fun b => (readBytes b none win01).map (·.1)) := by decide +kernel
+example : (twoFrames.write?.bind fun b => (readBytes b none {}).bind fun r => (readStream (b.take (b.length - 30)) r.2 win01).map (·.1.1)) = none := by decide +kernel
 
 end PoseVerif.Props.C07
